@@ -91,12 +91,17 @@ ORACLE_FUNCS = {("comm.bitcoin", "encode_varint"),
                 # (Model/Rlp.v, Model/BlockOps.v, Model/Sha256.v) are tied by T2, here they are oracles
                 ("ledger.block_utils", "rlp_mm_payload_size"), ("ledger.block_utils", "get_coinbase_txn"),
                 ("ledger.block_utils", "get_block_hash"), ("ledger.block_utils", "remove_mm_fields_if_present"),
-                ("comm.pow", "coinbase_tx_get_hash")}
+                ("comm.pow", "coinbase_tx_get_hash"),
+                # python-bitcoinlib wrappers (modelled in Model/BtcTx.v, tied by T2; here oracles)
+                ("comm.bitcoin", "get_unsigned_tx"), ("comm.bitcoin", "get_tx_hash")}
 SPEC_M.append(("ledger.protocol", "HSM2ProtocolLedger", [
     "report_comm_issue", "_error", "ensure_connection", "_get_pubkey", "_reset_advance_blockchain"]))
 SPEC_M.append(("ledger.hsm2dongle", "HSM2Dongle", [
     "_send_block_header", "_do_block_operation", "advance_blockchain", "update_ancestor"]))
 SPEC_M.append(("ledger.hsm2dongle", "HSM2Dongle", ["get_blockchain_state"]))
+SPEC_M.append(("ledger.protocol", "HSM2ProtocolLedger", ["_sign"]))
+# properties of objects whose class the code does not name but whose property name identifies it (pure code)
+PROP_CLASS = {"r": ("ledger.signature", "HSM2DongleSignature"), "s": ("ledger.signature", "HSM2DongleSignature")}
 SPEC_M.append(("ledger.protocol", "HSM2ProtocolLedger", ["_blockchain_state"]))
 SPEC_M.append(("ledger.protocol", "HSM2ProtocolLedger", [
     "_translate_advance_result", "_translate_update_ancestor_result", "_translate_sign_error",
@@ -408,7 +413,13 @@ class FuncTr:
             x = self.exc_of(st)
             return ("PRaiseX %s" % x[2:]) if x.startswith("@X") else ("PRaise %s" % x)
         if isinstance(st, ast.Expr):
-            if self.is_log_call(st.value):
+            lc = self.is_log_call(st.value)
+            if lc == "unsafe":
+                # a log call one of whose arguments is a computation that may raise: the arguments are
+                # evaluated in order for that effect, their values are dropped
+                uns = [a for a in st.value.args if not self.safe_arg(a)]
+                return self.binds(uns, lambda n: self.stmts(rest, k, ret))
+            if lc:
                 return self.stmts(rest, k, ret)
             v_ = st.value
             if isinstance(v_, ast.Call) and isinstance(v_.func, ast.Attribute) and isinstance(v_.func.value, ast.Name) \
@@ -726,7 +737,9 @@ class FuncTr:
              (isinstance(f, ast.Attribute) and f.attr in LOGGER_NAMES and isinstance(f.value, ast.Name))
         if ok:
             need(e.func.attr in ("debug", "info", "warning", "error", "critical", "fatal"), "logger method", e)
-            need(all(self.safe_arg(a) for a in e.args) and not e.keywords, "logging arguments", e)
+            need(not e.keywords, "logging keywords", e)
+            if not all(self.safe_arg(a) for a in e.args):
+                return "unsafe"      # some argument has to be evaluated (it may raise); see stmts
         return ok
 
     def safe_arg(self, a):
@@ -1025,6 +1038,12 @@ class FuncTr:
                     fn = self.gen.method(self.cls, e.attr)
                     extra = "".join(" " + x for x in self.pass_extra(fn))
                     return "%s%s %s" % (fn, extra, self.v(self.selfname))
+            if e.attr in PROP_CLASS and not (isinstance(e.value, ast.Name) and e.value.id == self.selfname):
+                mod2, cname2 = PROP_CLASS[e.attr]
+                cls2 = getattr(module(mod2).mod, cname2)
+                need(isinstance(inspect.getattr_static(cls2, e.attr, None), property), "%s is not a property" % e.attr, e)
+                fn = self.G().method(cls2, e.attr)
+                return self.binds([e.value], lambda n: self.L("%s %s" % (fn, n[0])))
             return self.binds([e.value], lambda n: "py_getattr %s %s" % (n[0], coq_string(e.attr)))
         if isinstance(e, ast.Call):
             return self.call(e)
@@ -1270,6 +1289,12 @@ class FuncTr:
                 return self.binds(e.args, lambda a: "py_enumerate %s %s" % (a[0], a[1]))
             if n == "str" and len(e.args) == 1 and not e.keywords:
                 return self.binds(e.args, lambda a: "py_str %s" % a[0])
+            eo = getattr(self.m.mod, n, None)
+            import enum as _enum
+            if isinstance(eo, type) and issubclass(eo, _enum.Enum) and not all(isinstance(m_.value, int) for m_ in eo) \
+                    and len(e.args) == 1 and not e.keywords:
+                objs = "; ".join(self.enum_obj(m_) for m_ in eo)
+                return self.binds(e.args, lambda a: "py_enum_member [%s] %s" % (objs, a[0]))
             enum_vals = self.enum_values(n)
             if enum_vals is not None and len(e.args) == 1 and not e.keywords:
                 return self.binds(e.args, lambda a: "py_enum_of [%s] %s" % (
